@@ -104,3 +104,5 @@ def run(rep):
     from common import include
     include(rep, 'c06', ('C06.array-row', 'C06.rts-field', 'C06.struct-row', 'C06.selected-representation', 'C06.type-of-member', 'C06.order', 'C06.name-identity'), 'composite-types')
     include(rep, 'c09', ('C09.derives', 'C09.host-shareable-atom', 'C09.panic-rows'), 'shader-type-derive')
+    # "nested structs of those": every struct reachable from a host-shareable variable must be emitted (C08's selection formula and closure rules)
+    include(rep, 'c08', ('C08.filter-formula', 'C08.closure', 'C08.struct-only'), 'nested-structs-emitted')
